@@ -30,6 +30,8 @@ def closure(facts, kinds, taker):
                 for (s2, f2, o2) in F:
                     if f2 == f and s2 == o:
                         new.add((s, f, o2))
+            if f == "chairs" and kinds.get(taker[s]) == "Delegate":   # Chairs < Attends, the field lives on a subclass of the
+                new.add((taker[s], "attends", o))                       # declared role taker type
             if f == "under":                          # the same transitive property declared on another class
                 for (s2, f2, o2) in F:
                     if f2 == "sub_org_of" and s2 == o:
@@ -49,7 +51,7 @@ def closure(facts, kinds, taker):
         F |= new
 
 
-SINGLE = {"works_for", "head_of"}
+SINGLE = {"works_for", "head_of", "chairs"}
 
 
 def observe_fields(om, named):
@@ -63,6 +65,12 @@ def observe_fields(om, named):
             fl = ("works_for", "member_of")
         elif isinstance(o, getattr(om, "Unit", ())):
             fl = ("under",)
+        elif isinstance(o, getattr(om, "Delegate", ())):
+            fl = ("attends",)
+        elif isinstance(o, getattr(om, "Visitor", ())):
+            fl = ()
+        elif isinstance(o, getattr(om, "Chair", ())):
+            fl = ("chairs",)
         elif isinstance(o, getattr(om, "VOrg", ())):
             fl = ("members",)
         elif isinstance(o, getattr(om, "VPerson", ())):
